@@ -23,7 +23,8 @@ def log(*a):
 
 def sh(cmd, timeout=None, env=None, cwd=None, check=True, capture=True):
     e = dict(os.environ)
-    e.update({"CARGO_NET_OFFLINE": "true"})
+    os.makedirs(os.path.join(OUT, "tmp"), exist_ok=True)
+    e.update({"CARGO_NET_OFFLINE": "true", "GV_TMP": os.path.join(OUT, "tmp")})
     if env:
         e.update(env)
     try:
